@@ -1342,3 +1342,103 @@ Proof.
   cbn [map table_write bind]. destruct ((2 <=? version) && (version <=? 4)) eqn:E4; [|lia].
   cbn [write_tbl_v4]. rewrite (lw_rejects dbg true be version asz Hs ltac:(lia) _ _ _ Hwf Hr Hp). reflexivity.
 Qed.
+
+(* ================================================================ Part 8: statements exported to Properties/C16.v *)
+
+Lemma lwp_ambiguity_marker_refuted_offsetpair : forall dbg : bool,
+  exists l bs ps, Forall (wf false) l /\
+    write_list_v4 dbg false false 4 4 true l = Ok bs /\ pairs_of l = Some ps /\ bs = enc_list4 false false 4 ps /\
+    Exists (fun p => match p with EPair b _ _ => b = amod 4 - 1 | _ => False end) ps.
+Proof.
+  intros dbg. exists [LOffsetPair 4294967295 32 []; LOffsetPair 48 64 []].
+  destruct dbg; (eexists; eexists; split; [|split; [vm_compute; reflexivity|split; [reflexivity|split; [vm_compute; reflexivity|]]]]);
+    try (constructor; reflexivity);
+    repeat constructor; try (vm_compute; reflexivity); try (intros _; eexists (ROffsetPair _ _); reflexivity).
+Qed.
+
+Lemma lwp_ambiguity_marker_refuted_startend : forall dbg : bool,
+  exists bs, write_list_v4 dbg true false 4 4 false [LStartEnd (AConst 4294967295) (AConst 32) [x9c]] = Ok bs /\
+    pairs_of [LStartEnd (AConst 4294967295) (AConst 32) [x9c]] = Some [EPair (amod 4 - 1) 32 [x9c]].
+Proof. intros [|]; eexists; split; vm_compute; reflexivity. Qed.
+
+Lemma lwp_ambiguity_marker_refuted_startlength_release :
+  exists bs, write_list_v4 false false false 4 8 false [LStartLength (AConst (2 ^ 64 - 1)) 33 []] = Ok bs /\
+    pairs_of [LStartLength (AConst (2 ^ 64 - 1)) 33 []] = Some [EPair (amod 8 - 1) 32 []].
+Proof. eexists; split; vm_compute; reflexivity. Qed.
+
+Lemma lwp_write_read_v4_refuted_F8 : forall dbg : bool,
+  let attrs := [(DW_AT_low_pc, VAddress (AConst 4096))] in
+  let l := [ROffsetPair 4294967295 32; ROffsetPair 48 64] in
+  exists rb o ps rest,
+    unit_write_lists dbg false false 4 4 attrs 0 0 [l] [] = Ok ((rb, [o]), ([], [])) /\
+    dec4 dbg false false 4 (at_offset o rb) = Ok (ps, rest) /\
+    map fst (resolve 4 (unit_base attrs) ps) = [(80, 96)] /\
+    meaning_rng 4 (unit_base attrs) l = Some [(4095, 4128); (4144, 4160)].
+Proof. intros [|]; do 4 eexists; repeat split; vm_compute; reflexivity. Qed.
+
+Lemma lwp_one_copy_v4 : forall dbg loc be version asz hb pos tbl body offs,
+  write_tbl_v4 dbg loc be version asz hb pos tbl = Ok (body, offs) ->
+  exists bss, Forall2 (fun l bs => write_list_v4 dbg loc be version asz hb l = Ok bs) tbl bss /\
+    body = concat bss /\ offs = offsets_from pos bss.
+Proof. intros dbg loc be version asz hb pos tbl body offs H. rewrite lw_tbl_v4_gen in H. exact (lw_tbl_gen_char _ _ _ _ _ H). Qed.
+
+Lemma lwp_one_copy_v5 : forall loc be version asz pos tbl body offs,
+  write_lists_v5 loc be version asz pos tbl = Ok (body, offs) ->
+  exists bss, Forall2 (fun l bs => write_list_v5 loc be version asz l = Ok bs) tbl bss /\
+    body = concat bss /\ offs = offsets_from pos bss.
+Proof. intros loc be version asz pos tbl body offs H. rewrite lw_lists_v5_gen in H. exact (lw_tbl_gen_char _ _ _ _ _ H). Qed.
+
+Lemma lwp_no_panic_refuted_startlength :
+  write_list_v4 true false false 4 8 false [LStartLength (AConst (2 ^ 64 - 1)) 1 []] = Panic /\
+  write_list_v4 true true false 4 8 false [LStartLength (ASym 0 (2 ^ 63 - 1)) 1 []] = Panic.
+Proof. split; vm_compute; reflexivity. Qed.
+
+Lemma lwp_no_panic_refuted_marker :
+  write_list_v4 true false false 4 16 false [LBase (AConst 1)] = Panic /\
+  write_list_v4 true false false 4 0 false [LBase (AConst 1)] = Panic /\
+  write_list_v4 true false false 4 32 false [LBase (AConst 1)] = Panic.
+Proof. repeat split; vm_compute; reflexivity. Qed.
+
+Lemma lwp_no_panic : forall dbg be fmt64 version asz attrs rstart lstart (rtbl : list (list wrange)) (ltbl : list (list wloc)),
+  unit_wf rtbl ltbl ->
+  Forall (panic_free_input dbg asz) (map (map loc_of_range) rtbl) -> Forall (panic_free_input dbg asz) ltbl ->
+  unit_write_lists dbg be fmt64 version asz attrs rstart lstart rtbl ltbl <> Panic /\
+  unit_write_lists dbg be fmt64 version asz attrs rstart lstart rtbl ltbl <> OutOfFuel.
+Proof. intros dbg be fmt64 version asz attrs rstart lstart rtbl ltbl [Hr Hl] Hpr Hpl. exact (lw_np_unit dbg be fmt64 version asz attrs rstart lstart rtbl ltbl Hr Hl Hpr Hpl). Qed.
+
+Lemma lwp_no_panic_release : forall be fmt64 version asz attrs rstart lstart (rtbl : list (list wrange)) (ltbl : list (list wloc)),
+  unit_wf rtbl ltbl ->
+  unit_write_lists false be fmt64 version asz attrs rstart lstart rtbl ltbl <> Panic.
+Proof.
+  intros be fmt64 version asz attrs rstart lstart rtbl ltbl [Hr Hl].
+  apply (lw_np_unit false be fmt64 version asz attrs rstart lstart rtbl ltbl Hr Hl);
+    apply Forall_forall; intros; left; reflexivity.
+Qed.
+
+Lemma lwp_rejects_v4 : forall (dbg loc be : bool) (version asz : N) (l : list wloc) (hb : bool) (e : error),
+  size_ok asz -> version <= 4 -> Forall wloc_wf l ->
+  rejected hb l = Some e -> plain_until_reject asz hb l = true ->
+  write_list_v4 dbg loc be version asz hb l = Err e.
+Proof. intros dbg loc be version asz l hb e Hs Hv. exact (lw_rejects dbg loc be version asz Hs Hv l hb e). Qed.
+
+Lemma lwp_rejected_never_bytes : forall (dbg loc be : bool) (version asz : N) (l : list wloc) (hb : bool) (bs : list byte),
+  write_list_v4 dbg loc be version asz hb l = Ok bs -> Forall (wf loc) l -> rejected hb l = None.
+Proof. intros dbg loc be version asz. exact (lw_never_bytes dbg loc be version asz). Qed.
+
+Lemma lwp_dedup_rng : forall (xs : list (list wrange)) t ids,
+  rng_add_all [] xs = (t, ids) ->
+  NoDup t /\ length ids = length xs /\
+  (forall k x, nth_error xs k = Some x -> exists i, nth_error ids k = Some i /\ nth_error t i = Some x) /\
+  (forall k1 k2 x1 x2 i1 i2, nth_error xs k1 = Some x1 -> nth_error xs k2 = Some x2 ->
+     nth_error ids k1 = Some i1 -> nth_error ids k2 = Some i2 -> (x1 = x2 <-> i1 = i2)) /\
+  (forall y, In y t <-> In y xs).
+Proof. exact (lw_dedup _ (lw_list_eqb_spec _ lw_wrange_eqb_spec)). Qed.
+
+Lemma lwp_dedup_loc : forall (xs : list (list wloc)) t ids,
+  loc_add_all [] xs = (t, ids) ->
+  NoDup t /\ length ids = length xs /\
+  (forall k x, nth_error xs k = Some x -> exists i, nth_error ids k = Some i /\ nth_error t i = Some x) /\
+  (forall k1 k2 x1 x2 i1 i2, nth_error xs k1 = Some x1 -> nth_error xs k2 = Some x2 ->
+     nth_error ids k1 = Some i1 -> nth_error ids k2 = Some i2 -> (x1 = x2 <-> i1 = i2)) /\
+  (forall y, In y t <-> In y xs).
+Proof. exact (lw_dedup _ (lw_list_eqb_spec _ lw_wloc_eqb_spec)). Qed.
